@@ -22,6 +22,11 @@ inductive CNode where
   | branch (cs : List CNode) (v : Bytes)   -- rawFullNode: 16 children, value slot ([] = nil)
 deriving Repr, Inhabited
 
+/-- the bytes in the value slot of a full node ([] = empty slot) -/
+def valueBytes : Node → Bytes
+  | .value b => b
+  | _ => []
+
 mutual
 /-- `hashChildren` + `simplifyNode`: the collapsed form of a node -/
 def collapse (H : Bytes → Bytes) : Node → CNode
@@ -37,7 +42,7 @@ def collapse (H : Bytes → Bytes) : Node → CNode
     | .full cs' =>
       .ext (hexToCompact k)
         (if (enc H (.full cs')).length < 32 then collapse H (.full cs') else .hashRef (H (enc H (.full cs'))))
-  | .full cs => .branch (collapseL H cs 0) (match cs.getD 16 .nil with | .value b => b | _ => [])
+  | .full cs => .branch (collapseL H cs 0) (valueBytes (cs.getD 16 .nil))
 /-- slots 0..15 as references -/
 def collapseL (H : Bytes → Bytes) : List Node → Nat → List CNode
   | [], _ => []
